@@ -5,7 +5,7 @@
 From Coq Require Import ZArith List.
 From MomoCommon Require Import GenPrelude.
 From C16 Require Gen_Log2_64 Gen_Log2_32 Gen_SegSqrt Gen_SegCnst Fast Log2_Proofs SegMath SegSqrt_Proofs SegCnst_Proofs
-  SegModel SegModel_Inst Gen_ArrSqrt Gen_ArrCnst Gen_ArrLog Arr_Proofs Arr_Inst.
+  SegModel SegModel_Inst Gen_ArrSqrt Gen_ArrCnst Gen_ArrLog Gen_ShiftSqrt Gen_ShiftCnst Shift_Proofs Arr_Proofs Arr_Inst.
 Local Open Scope Z_scope.
 
 (* UIntMath<size_t>::Log2 (de Bruijn multiplication + table after the or-shift cascade) is the integer
@@ -525,3 +525,90 @@ Theorem C16_cnst_arr_pvDecCount_destroys : forall L, 0 <= L <= 62 -> forall segs
     Arr_Proofs.tiles (Gen_SegCnst.GetIndex L) (fun _ : Z => Gen_SegCnst.GetItemCount L) (SegModel_Inst.SCc L) glog' segs m gn c count.
 Proof. exact Arr_Inst.cnst_pvDecCount_log. Qed.
 Print Assumptions C16_cnst_arr_pvDecCount_destroys.
+
+(* ---- round 7: Insert / Remove in the middle: ArrayShifter regenerated for the SegmentedArray instantiations ---- *)
+
+(* the two instantiations ArrayShifter<SegmentedArray<.., sqrt>> / <.., cnst> translate to the same Gallina *)
+Theorem C16_shift_same_code : Gen_ShiftSqrt.ShiftRemove = Gen_ShiftCnst.ShiftRemove /\ Gen_ShiftSqrt.ShiftInsert = Gen_ShiftCnst.ShiftInsert.
+Proof. exact Shift_Proofs.same_code. Qed.
+Print Assumptions C16_shift_same_code.
+
+(* sqrt: Insert(index, count, item) in the middle = Reserve(mCount + count) followed by the regenerated
+   ArrayShifter<SegmentedArray>::InsertNogrow (Gen_ShiftSqrt.ShiftInsert; cells = values by index, it = the cell holding the item): never stuck;
+   the segment table is only extended; EVERY old slot keeps its address (operator[] i, i < old count, returns the same address
+   afterwards), the elements in front of the insertion point also keep their value, the inserted cells hold the item, the old tail
+   sits `count` slots higher; invariant kept *)
+Theorem C16_sqrt_arr_Insert_stable : forall L, 0 <= L <= 62 -> forall alloc segs n c (items : Z -> Z) index count it,
+  Arr_Proofs.ginv (Gen_SegSqrt.GetSegItemIndexes L) SegModel_Inst.maxi (SegModel_Inst.SCq L) n c -> 0 <= index <= c -> 0 <= count -> c + count < SegModel_Inst.maxi -> (it < index \/ c + count <= it) ->
+  exists segs' n' items',
+    Gen_ArrSqrt.Reserve (Gen_SegSqrt.GetSegItemIndexes L) (Gen_SegSqrt.GetIndex L) alloc segs n c (c + count) = Ok (tt, segs', n') /\
+    Gen_ShiftSqrt.ShiftInsert items c (Gen_SegSqrt.GetIndex L n' 0) index count it = Ok (tt, items', c + count) /\
+    (forall k, k < n -> segs' k = segs k) /\ n <= n' /\ Arr_Proofs.ginv (Gen_SegSqrt.GetSegItemIndexes L) SegModel_Inst.maxi (SegModel_Inst.SCq L) n' (c + count) /\
+    (forall i, 0 <= i < c -> Gen_ArrSqrt.pvGetItem (Gen_SegSqrt.GetSegItemIndexes L) segs' n' (c + count) i = Gen_ArrSqrt.pvGetItem (Gen_SegSqrt.GetSegItemIndexes L) segs n c i) /\
+    (forall j, j < index -> items' j = items j) /\ (forall j, index <= j < index + count -> items' j = items it) /\
+    (forall j, index + count <= j < c + count -> items' j = items (j - count)).
+Proof. exact Arr_Inst.sqrt_Insert_stable. Qed.
+Print Assumptions C16_sqrt_arr_Insert_stable.
+
+(* sqrt: Remove(index, count) in the middle = the regenerated ArrayShifter<SegmentedArray>::Remove: never stuck, the table is not touched,
+   every remaining slot keeps its address, the elements in front keep their value, the tail moves down by `count`, invariant kept *)
+Theorem C16_sqrt_arr_Remove_stable : forall L, 0 <= L <= 62 -> forall segs n c (items : Z -> Z) index count,
+  Arr_Proofs.ginv (Gen_SegSqrt.GetSegItemIndexes L) SegModel_Inst.maxi (SegModel_Inst.SCq L) n c -> 0 <= index -> 0 <= count -> index + count <= c ->
+  exists items',
+    Gen_ShiftSqrt.ShiftRemove items c (Gen_SegSqrt.GetIndex L n 0) index count = Ok (tt, items', c - count) /\ Arr_Proofs.ginv (Gen_SegSqrt.GetSegItemIndexes L) SegModel_Inst.maxi (SegModel_Inst.SCq L) n (c - count) /\
+    (forall i, 0 <= i < c - count -> Gen_ArrSqrt.pvGetItem (Gen_SegSqrt.GetSegItemIndexes L) segs n (c - count) i = Gen_ArrSqrt.pvGetItem (Gen_SegSqrt.GetSegItemIndexes L) segs n c i) /\
+    (forall j, j < index -> items' j = items j) /\ (forall j, index <= j < c - count -> items' j = items (j + count)).
+Proof. exact Arr_Inst.sqrt_Remove_stable. Qed.
+Print Assumptions C16_sqrt_arr_Remove_stable.
+
+(* sqrt: the abstract array operations the shifter translation uses (AddBackNogrow: count + 1 if count < capacity else check failure;
+   RemoveBack k: count - k if k <= count else check failure) are exactly what the regenerated SegmentedArray members compute *)
+Theorem C16_sqrt_arr_nogrow_bridge : forall L, 0 <= L <= 62 -> forall segs n c, Arr_Proofs.ginv (Gen_SegSqrt.GetSegItemIndexes L) SegModel_Inst.maxi (SegModel_Inst.SCq L) n c -> c + 1 < SegModel_Inst.maxi ->
+  Gen_ArrSqrt.AddBackNogrowCrt (Gen_SegSqrt.GetSegItemIndexes L) segs n c = if Z.ltb c (Gen_SegSqrt.GetIndex L n 0) then Ok (tt, c + 1) else Stuck.
+Proof. exact Arr_Inst.sqrt_nogrow_bridge. Qed.
+Print Assumptions C16_sqrt_arr_nogrow_bridge.
+
+Theorem C16_sqrt_arr_removeback_bridge : forall L, 0 <= L <= 62 -> forall segs n c k, 0 <= k -> 0 <= c < SegModel_Inst.maxi ->
+  Gen_ArrSqrt.RemoveBack (Gen_SegSqrt.GetSegItemIndexes L) (Gen_SegSqrt.GetItemCount L) segs n c k = if Z.leb k c then Ok (tt, c - k) else Stuck.
+Proof. exact Arr_Inst.sqrt_removeback_bridge. Qed.
+Print Assumptions C16_sqrt_arr_removeback_bridge.
+
+(* cnst: Insert(index, count, item) in the middle = Reserve(mCount + count) followed by the regenerated
+   ArrayShifter<SegmentedArray>::InsertNogrow (Gen_ShiftCnst.ShiftInsert; cells = values by index, it = the cell holding the item): never stuck;
+   the segment table is only extended; EVERY old slot keeps its address (operator[] i, i < old count, returns the same address
+   afterwards), the elements in front of the insertion point also keep their value, the inserted cells hold the item, the old tail
+   sits `count` slots higher; invariant kept *)
+Theorem C16_cnst_arr_Insert_stable : forall L, 0 <= L <= 62 -> forall alloc segs n c (items : Z -> Z) index count it,
+  Arr_Proofs.ginv (Gen_SegCnst.GetSegItemIndexes L) SegModel_Inst.maxi (SegModel_Inst.SCc L) n c -> 0 <= index <= c -> 0 <= count -> c + count < SegModel_Inst.maxi -> (it < index \/ c + count <= it) ->
+  exists segs' n' items',
+    Gen_ArrCnst.Reserve (Gen_SegCnst.GetSegItemIndexes L) (Gen_SegCnst.GetIndex L) alloc segs n c (c + count) = Ok (tt, segs', n') /\
+    Gen_ShiftCnst.ShiftInsert items c (Gen_SegCnst.GetIndex L n' 0) index count it = Ok (tt, items', c + count) /\
+    (forall k, k < n -> segs' k = segs k) /\ n <= n' /\ Arr_Proofs.ginv (Gen_SegCnst.GetSegItemIndexes L) SegModel_Inst.maxi (SegModel_Inst.SCc L) n' (c + count) /\
+    (forall i, 0 <= i < c -> Gen_ArrCnst.pvGetItem (Gen_SegCnst.GetSegItemIndexes L) segs' n' (c + count) i = Gen_ArrCnst.pvGetItem (Gen_SegCnst.GetSegItemIndexes L) segs n c i) /\
+    (forall j, j < index -> items' j = items j) /\ (forall j, index <= j < index + count -> items' j = items it) /\
+    (forall j, index + count <= j < c + count -> items' j = items (j - count)).
+Proof. exact Arr_Inst.cnst_Insert_stable. Qed.
+Print Assumptions C16_cnst_arr_Insert_stable.
+
+(* cnst: Remove(index, count) in the middle = the regenerated ArrayShifter<SegmentedArray>::Remove: never stuck, the table is not touched,
+   every remaining slot keeps its address, the elements in front keep their value, the tail moves down by `count`, invariant kept *)
+Theorem C16_cnst_arr_Remove_stable : forall L, 0 <= L <= 62 -> forall segs n c (items : Z -> Z) index count,
+  Arr_Proofs.ginv (Gen_SegCnst.GetSegItemIndexes L) SegModel_Inst.maxi (SegModel_Inst.SCc L) n c -> 0 <= index -> 0 <= count -> index + count <= c ->
+  exists items',
+    Gen_ShiftCnst.ShiftRemove items c (Gen_SegCnst.GetIndex L n 0) index count = Ok (tt, items', c - count) /\ Arr_Proofs.ginv (Gen_SegCnst.GetSegItemIndexes L) SegModel_Inst.maxi (SegModel_Inst.SCc L) n (c - count) /\
+    (forall i, 0 <= i < c - count -> Gen_ArrCnst.pvGetItem (Gen_SegCnst.GetSegItemIndexes L) segs n (c - count) i = Gen_ArrCnst.pvGetItem (Gen_SegCnst.GetSegItemIndexes L) segs n c i) /\
+    (forall j, j < index -> items' j = items j) /\ (forall j, index <= j < c - count -> items' j = items (j + count)).
+Proof. exact Arr_Inst.cnst_Remove_stable. Qed.
+Print Assumptions C16_cnst_arr_Remove_stable.
+
+(* cnst: the abstract array operations the shifter translation uses (AddBackNogrow: count + 1 if count < capacity else check failure;
+   RemoveBack k: count - k if k <= count else check failure) are exactly what the regenerated SegmentedArray members compute *)
+Theorem C16_cnst_arr_nogrow_bridge : forall L, 0 <= L <= 62 -> forall segs n c, Arr_Proofs.ginv (Gen_SegCnst.GetSegItemIndexes L) SegModel_Inst.maxi (SegModel_Inst.SCc L) n c -> c + 1 < SegModel_Inst.maxi ->
+  Gen_ArrCnst.AddBackNogrowCrt (Gen_SegCnst.GetSegItemIndexes L) segs n c = if Z.ltb c (Gen_SegCnst.GetIndex L n 0) then Ok (tt, c + 1) else Stuck.
+Proof. exact Arr_Inst.cnst_nogrow_bridge. Qed.
+Print Assumptions C16_cnst_arr_nogrow_bridge.
+
+Theorem C16_cnst_arr_removeback_bridge : forall L, 0 <= L <= 62 -> forall segs n c k, 0 <= k -> 0 <= c < SegModel_Inst.maxi ->
+  Gen_ArrCnst.RemoveBack (Gen_SegCnst.GetSegItemIndexes L) (fun _ : Z => Gen_SegCnst.GetItemCount L) segs n c k = if Z.leb k c then Ok (tt, c - k) else Stuck.
+Proof. exact Arr_Inst.cnst_removeback_bridge. Qed.
+Print Assumptions C16_cnst_arr_removeback_bridge.
